@@ -2,7 +2,7 @@
 from ..prov import get_an, pp, strip_generics
 from ..tyutil import typenum_usize, array_len, strip_ref, generic_args
 from .. import booldec
-from .common import impl_bodies, where, ret_classes, switch_edge, uses_of_local_blocks
+from .common import impl_bodies, where, ret_classes, switch_edge, uses_of_local_blocks, explicit_len_guard, is_incorrect_len_err, len_value
 from . import c09
 from . import rfc9180 as rfc
 
@@ -79,8 +79,8 @@ def check_sizes(rep, facts, rule='R12.1'):
     return n
 
 
-def find_guard_expected(a, facts, self_ty, bi):
-    exp = a.arg_val(bi, 0)
+def find_guard_expected(a, facts, self_ty, bi, exp=None):
+    exp = a.arg_val(bi, 0) if exp is None else exp
     n_expected = size_of_self(facts, self_ty)
     n_found = None
     symbolic = False
@@ -113,12 +113,13 @@ def check_from_bytes(rep, facts, b, rule='R12.2'):
         uses = uses_of_local_blocks(a, 1)
         rep.check(uses == {bi}, rule, fn, 'input-used-once', 'blocks using the input: %s' % sorted(uses), 'the input is only used by the delegation', where(a))
         return
-    if len(guards) != 1:
+    eg = explicit_len_guard(a, facts) if not guards else None
+    if len(guards) != 1 and not eg:
         rep.bad(rule, fn, 'length-guard', '%d enforce_equal_len call(s), %d delegation(s)' % (len(guards), len(delegs)),
                 'an exact-length guard or a whole-input delegation', where(a))
         return
-    gbi = guards[0][0]
-    exp, n_found, n_expected, symbolic = find_guard_expected(a, facts, self_ty, gbi)
+    gbi = guards[0][0] if guards else eg['switch']
+    exp, n_found, n_expected, symbolic = find_guard_expected(a, facts, self_ty, gbi, eg['n'] if eg else None)
     okexp = (n_found is not None and n_found == n_expected) or (symbolic and n_expected is None)
     if n_expected is None and not symbolic:
         # generic Self (AeadTag<A>): expected must be Self::size() / Self::OutputSize
@@ -126,12 +127,18 @@ def check_from_bytes(rep, facts, b, rule='R12.2'):
     if symbolic:
         n_found = None
     rep.check(okexp, rule, fn, 'guard-expected', '%s = %s' % (pp(exp), n_found), 'expected = Self::OutputSize (%s)' % n_expected, where(a, a.term_point(gbi)))
-    giv = a.arg_val(gbi, 1)
+    giv = a.arg_val(gbi, 1) if not eg else ('len', ('param', 1))
     rep.check(giv == ('len', ('param', 1)), rule, fn, 'guard-given', pp(giv), 'given = encoded.len()', where(a, a.term_point(gbi)))
-    prop = [tt for s, tt, cls in ret_classes(a, facts) if tt[0] == 'from_residual' and tt[1][0] == 'residual' and tt[1][1][0] == 'call' and tt[1][1][3] == gbi]
-    rep.check(len(prop) == 1, rule, fn, 'guard-propagated', '%d propagating return(s)' % len(prop), 'the guard\'s error is returned unchanged (`?`)', where(a, a.term_point(gbi)))
-    edge = None
-    for b2 in a.cfg.reach:
+    if eg:
+        # the guard spelled out as a comparison: a wrong length returns exactly Err(IncorrectInputLength(N, encoded.len()))
+        okr = bool(eg['ne_returns']) and all(is_incorrect_len_err(tt, eg['n'], 1, facts) for s, tt in eg['ne_returns'])
+        rep.check(okr, rule, fn, 'guard-propagated', [pp(tt)[:100] for s, tt in eg['ne_returns']],
+                  'a wrong length returns Err(IncorrectInputLength(OutputSize, encoded.len()))', where(a, a.term_point(gbi)))
+    else:
+        prop = [tt for s, tt, cls in ret_classes(a, facts) if tt[0] == 'from_residual' and tt[1][0] == 'residual' and tt[1][1][0] == 'call' and tt[1][1][3] == gbi]
+        rep.check(len(prop) == 1, rule, fn, 'guard-propagated', '%d propagating return(s)' % len(prop), 'the guard\'s error is returned unchanged (`?`)', where(a, a.term_point(gbi)))
+    edge = eg['eq_edge'] if eg else None
+    for b2 in a.cfg.reach if not eg else ():
         t2 = a.body.blocks[b2]['term']
         if t2['k'] == 'switch':
             d = a.val_op(t2['discr'], a.term_point(b2))
@@ -141,9 +148,12 @@ def check_from_bytes(rep, facts, b, rule='R12.2'):
         rep.bad(rule, fn, 'guard-branch', 'guard result not inspected', '`?` on the guard', where(a, a.term_point(gbi)))
         return
     # every other use of the input is dominated by the success edge
-    uses = uses_of_local_blocks(a, 1)
+    uses = uses_of_local_blocks(a, 1, ignore_len=bool(eg))
     lenblocks = {bi for bi, t, c in a.calls(lambda c: c['name'] == 'len') if a.arg_val(bi, 0) == ('param', 1) and a.cfg.dominates(bi, gbi)}
-    late = [u for u in uses if u not in lenblocks and u != gbi and not a.cfg.edge_dominates(edge[0], edge[1], u)]
+    late = [u for u in uses if u not in lenblocks and (u != gbi or eg) and not a.cfg.edge_dominates(edge[0], edge[1], u)]
+    if eg:
+        # on the wrong-length edge the input only feeds the error value, whose exact form was just checked
+        late = [u for u in late if not a.cfg.edge_dominates(eg['ne_edge'][0], eg['ne_edge'][1], u)]
     rep.check(not late, rule, fn, 'guard-first', 'uses of the input not dominated by the guard\'s success edge: %s' % late,
               'nothing touches the input before its length is known to be exactly OutputSize', where(a))
     # fixed-size copies
